@@ -17,7 +17,7 @@ func init() {
 	register(&Prop{
 		ID:    "C18",
 		Level: "fault_enumeration",
-		Rule: "reader: generated streams x every byte offset (all offsets for small streams, strided + random for larger) as the point where the reader fails with a sentinel error after a partial read, " +
+		Rule: "reader: generated streams x every byte offset (all offsets for small streams, strided + random for larger) as the point where the reader fails with a sentinel error after a partial read (the error on the following Read, or together with the last bytes delivered), " +
 			"x reader kinds {seekable, plain, bufio} x {explicit, auto} x {NextPacket, NextData}; seeker: the Seek call of packet-size detection or of Rewind (after 0..5 calls) fails, a later Rewind succeeds and is compared with a fresh run; writer: Muxer histories (WriteTables / WriteData ending in packets with 0, 1, 2, many stuffing bytes / WritePacket) " +
 			"re-run with the k-th Write call failing, for every k of the fault-free run, permanently and once, accepting 0 or a partial count; distinct = (stream or history, fault position, mode); " +
 			"non-trivial = the fault was actually injected during an API call",
@@ -27,6 +27,7 @@ func init() {
 		Guards: func(m *mon.Merged, tier string) []string {
 			var out []string
 			need(m, &out, "reader_faults_injected", 20000)
+			need(m, &out, "reader_faults_delivered_with_data", 10000)
 			need(m, &out, "writer_faults_injected", 20000)
 			need(m, &out, "seek_faults_injected", 1000)
 			need(m, &out, "recovered_rewinds_compared", 500)
@@ -142,10 +143,21 @@ func readerFault(c *mon.Ctx, idx int64, input []byte, cfg DemuxCfg, base []Item,
 	if f >= len(input) {
 		return
 	}
-	cfg.HasFail, cfg.FailAt = true, f
+	readerFault1(c, idx, input, cfg, base, f, false)
+	if f > 0 {
+		readerFault1(c, idx, input, cfg, base, f, true)
+		c.Count("reader_faults_delivered_with_data")
+	}
+}
+
+func readerFault1(c *mon.Ctx, idx int64, input []byte, cfg DemuxCfg, base []Item, f int, withData bool) {
+	cfg.HasFail, cfg.FailAt, cfg.FailWithData = true, f, withData
 	data := map[string]any{"config": cfg.String(), "fail_at": f, "stream": mon.Hex(input, 1200)}
 	dmx, tap := NewDemuxerFor(input, cfg)
 	cls := cfg.Reader + "/" + sizeCls(cfg.PacketSize) + "/" + cfg.API
+	if withData {
+		cls += "/error-with-data"
+	}
 	region := "payload"
 	switch {
 	case cfg.PacketSize == 0 && f < 193:
@@ -177,7 +189,7 @@ func readerFault(c *mon.Ctx, idx int64, input []byte, cfg DemuxCfg, base []Item,
 		}
 		// first error
 		c.Count("reader_faults_injected")
-		c.Case(mon.HashStr("r", fmt.Sprint(idx, cfg.String(), f)), true)
+		c.Case(mon.HashStr("r", fmt.Sprint(idx, cfg.String(), f, withData)), true)
 		if errors.Is(it.Err, astits.ErrNoMorePackets) && !errors.Is(it.Err, mon.ErrInjected) {
 			c.Violate("C18/reader/failure-reported-as-end-of-stream:"+cls+":"+region, "reader", idx, fmt.Sprintf("reader failed at offset %d (reads so far %d), the call returned ErrNoMorePackets", f, tap.NReads), data)
 			return
